@@ -118,6 +118,7 @@ Theorem run_errors_exact : forall cfg (p : profile) (s : mstate) e,
   run_stv cfg p s = inr e ->
   let N := total_wt (ballots p) in
   (e = EValue /\ (~ (1 <= s_m cfg <= Z.of_nat (length (cands p)))%Z \/ s_quota cfg = QBad)) \/
+  (e = EType /\ s_transfer cfg = TRandom /\ ~ integral_weights cand p) \/
   exists t, stv_init cfg p = inl t /\
     (exists (pr : profile) prev older (s1 : mstate),
        stv_inv cfg t N p pr (prev :: older) /\ count_elected (prev :: older) <> s_m cfg /\
@@ -128,13 +129,14 @@ Theorem run_errors_exact : forall cfg (p : profile) (s : mstate) e,
        N < inject_Z (s_m cfg)).
 Proof.
   intros cfg p s e Hwf Hscr H. cbv zeta.
-  destruct (run_error_round cand ceqb ceqb_spec cfg p s e (oe_inv cfg p) Hwf Hscr) as [Hl|Hr].
+  destruct (run_error_round cand ceqb ceqb_spec cfg p s e (oe_inv cfg p) Hwf Hscr) as [Hl|[Hty|Hr]].
   - intros t s0 Ei E0. left. rewrite (count_elected_initial cand ceqb p s0 E0).
     destruct (stv_init_inv cand cfg p t Ei) as (_ & Hm & _). lia.
   - intros t pr prev older s1 s' np st _. apply oe_inv_step.
   - exact H.
   - left. exact Hl.
-  - right. destruct Hr as (t & pr & prev & older & s1 & Ei & Hinv & HI & Hscr1 & Hne & Hstep).
+  - right. left. exact Hty.
+  - right. right. destruct Hr as (t & pr & prev & older & s1 & Ei & Hinv & HI & Hscr1 & Hne & Hstep).
     exists t. split; [exact Ei|].
     pose proof (step_failure cand ceqb ceqb_spec cfg t _ p pr prev older s1 e Hinv Hscr1 Hstep) as Hf.
     pose proof (threshold_value cand cfg p t Ei (total_wt_nonneg cand p Hwf)) as [Hm Hqv].
@@ -170,8 +172,9 @@ Theorem run_error_list : forall cfg (p : profile) (s : mstate) e,
   e = EScript.
 Proof.
   intros cfg p s e Hwf Hscr H. cbv zeta.
-  destruct (run_errors_exact cfg p s e Hwf Hscr H) as [Hl|(t & Ei & (pr & prev & older & s1 & _ & _ & Hf) & HI & HZ)];
-    [left; exact Hl|]. cbv zeta in HI, HZ. right.
+  destruct (run_errors_exact cfg p s e Hwf Hscr H)
+    as [Hl|[(-> & Hty & _)|(t & Ei & (pr & prev & older & s1 & _ & _ & Hf) & HI & HZ)]];
+    [left; exact Hl|do 3 right; left; split; [reflexivity|exact Hty]|]. cbv zeta in HI, HZ. right.
   pose proof (threshold_value cand cfg p t Ei (total_wt_nonneg cand p Hwf)) as [_ Hqv]. cbv zeta in Hqv.
   destruct Hf as [Hf|[Hf|[Hf|[Hf|Hf]]]].
   - destruct Hf as (Hsim & g & rest & _ & _ & _ & [[-> Htb]|[-> _]]).
@@ -210,7 +213,8 @@ Theorem one_by_one_no_index : forall cfg (p : profile) (s : mstate),
   run_stv cfg p s <> inr EIndex.
 Proof.
   intros cfg p s Hwf Hscr Hsim H.
-  destruct (run_errors_exact cfg p s EIndex Hwf Hscr H) as [[E _]|(t & _ & _ & HI & _)]; [discriminate|].
+  destruct (run_errors_exact cfg p s EIndex Hwf Hscr H) as [[E _]|[[E _]|(t & _ & _ & HI & _)]];
+    [discriminate|discriminate|].
   destruct (HI eq_refl) as (Hs & _). congruence.
 Qed.
 
@@ -258,9 +262,11 @@ Theorem safe_quota_errors : forall cfg (p : profile) (s : mstate) e t,
   (s_transfer cfg = TRandom /\ (e = EType \/ e = EValue)).
 Proof.
   intros cfg p s e t Hwf Hk Hscr Ei Ht HN H.
-  destruct (run_errors_exact cfg p s e Hwf Hscr H) as [[_ Hl]|(t' & Ei' & (pr & prev & older & s1 & _ & _ & Hf) & HI & HZ)].
+  destruct (run_errors_exact cfg p s e Hwf Hscr H)
+    as [[_ Hl]|[(-> & Hty & _)|(t' & Ei' & (pr & prev & older & s1 & _ & _ & Hf) & HI & HZ)]].
   - exfalso. destruct (stv_init_inv cand cfg p t Ei) as (_ & Hm & Hth).
     destruct Hl as [Hl|Hl]; [apply Hl; exact Hm|]. rewrite Hl in Hth. discriminate.
+  - right. right. split; [exact Hty|left; reflexivity].
   - assert (t' = t) by congruence. subst t'. cbv zeta in HI, HZ.
     destruct Hf as [Hf|[Hf|[Hf|[Hf|Hf]]]].
     + destruct Hf as (Hsim & g & rest & _ & _ & _ & [[-> Htb]|[-> _]]).
@@ -301,8 +307,11 @@ Proof.
       apply (safe_quota_errors cfg p s e t Hwf Hk Hscr Ei); [| |exact H].
       * rewrite Ht. change 0 with (inject_Z 0). rewrite <- Zlt_Qlt. fold N q. lia.
       * rewrite Ht. exact HN.
-    + exfalso. destruct (stv_init_err cand cfg p e0 Hwf Ei) as [_ [Hc|Hc]]; [apply Hc; exact Hm|].
-      rewrite Hq in Hc. discriminate.
+    + rewrite (run_stv_unfold cand ceqb), Ei in H. injection H as <-.
+      destruct (stv_init_err_gen cand cfg p e0 Hwf Ei) as [(-> & Hty & _)|(_ & _ & [Hc|Hc])].
+      * right. right. split; [exact Hty|left; reflexivity].
+      * exfalso. apply Hc. exact Hm.
+      * exfalso. rewrite Hq in Hc. discriminate.
 Qed.
 
 (* a threshold above half of the votes (every single-winner Droop count): at most one candidate
@@ -335,7 +344,7 @@ Theorem majority_threshold_no_index : forall cfg (p : profile) (s : mstate) t,
 Proof.
   intros cfg p s t Hwf Hscr Ei Hhalf H.
   destruct (run_error_round cand ceqb ceqb_spec cfg p s EIndex (half_inv cfg p) Hwf Hscr)
-    as [[E _]|(t' & pr & prev & older & s1 & Ei' & Hinv & [Hle _] & Hscr1 & Hne & Hstep)].
+    as [[E _]|[[E _]|(t' & pr & prev & older & s1 & Ei' & Hinv & [Hle _] & Hscr1 & Hne & Hstep)]].
   - intros t0 s0 Ei0 E0. split; [|apply Qle_refl]. rewrite (count_elected_initial cand ceqb p s0 E0).
     destruct (stv_init_inv cand cfg p t0 Ei0) as (_ & Hm & _). lia.
   - intros t0 pr prev older s1 s' np st Ei0 Hinv [Hle Hw] Hscr1 Hne Hstep.
@@ -358,6 +367,7 @@ Proof.
                (inv_t_nonneg _ _ _ _ _ _ _ _ Hinv)).
       intros E. split; [apply Hscr1; exact E|apply (inv_t_int _ _ _ _ _ _ _ _ Hinv)].
   - exact H.
+  - discriminate.
   - discriminate.
   - pose proof (step_failure cand ceqb ceqb_spec cfg t' _ p pr prev older s1 EIndex Hinv Hscr1 Hstep) as Hf.
     apply round_failure_index in Hf. destruct Hf as (_ & _ & Hgt). lia.
